@@ -20,7 +20,8 @@ LEVEL_NOTE = 'trusted: vk/gen_circuit.py line-level evaluator, vk/ref_mv.py, vk/
 DESIGN_REF = 'DESIGN.md section 3 C16'
 LEVEL = 'exploration'
 RULE = ('Cases: (circuit, m in {2,4,8}, c_reuse, strip_forks, batch size, stimulus seed, injected line, injected values). Non-trivial iff the injected line has both '
-        'upstream logic (it is not driven by a source) and downstream logic (some other evaluated line depends on it). Distinct = digest of all case fields.')
+        'upstream logic (it is not driven by a source) and downstream logic (some other evaluated line depends on it). Distinct = digest of all case fields.'
+        ' Two large cases per shard (200-400 gates, 65-261 patterns).')
 ASSUMPTIONS = ['the identity may be passed as a Line or as anything operator.index() maps to the line index',
                'cells without output line have no signal and get no callback; stripped fork branches are not evaluated and get none',
                "X and '-' are one class in value comparisons"]
